@@ -389,9 +389,8 @@ func builtin_round(self py.Object, args py.Tuple, kwargs py.StringDict) (py.Obje
 	var number py.Object
 	// None means not given: round(2.5) is an int but round(2.5, 0) a float
 	var ndigits py.Object = py.None
-	// var kwlist = []string{"number", "ndigits"}
-	// FIXME py.ParseTupleAndKeywords(args, kwargs, "O|O:round", kwlist, &number, &ndigits)
-	err := py.UnpackTuple(args, nil, "round", 1, 2, &number, &ndigits)
+	var kwlist = []string{"number", "ndigits"}
+	err := py.ParseTupleAndKeywords(args, kwargs, "O|O:round", kwlist, &number, &ndigits)
 	if err != nil {
 		return nil, err
 	}
